@@ -124,6 +124,9 @@ func runHist(c *evid.Case) {
 			held := n.held != nil
 			n.mu.Unlock()
 			if held {
+				bctx, bcancel := context.WithTimeout(context.Background(), 5*time.Second)
+				_ = ec.Healthy(bctx) // see runner.barrier
+				bcancel()
 				n.drop()
 				n.releaseHold(true)
 			}
